@@ -157,7 +157,31 @@ theorem every_path_hooked_once (path : List String) (w : String) (pre : List Ev)
     decide
   exact key w hu m hm hi
 
+/-! ### Stacked hooks -/
+
+private theorem level_hooked :
+    ∀ w ∈ userWrappers, ∀ m ∈ entryPoints, m ∈ ifaceOf w → levelKind w m = LK.hooked m := by
+  decide
+
+/-- **stacked hooks, any depth**: on a stack WithHook(…WithHook(base, h1)…, h_d) of forwarding hooks every
+    request entry point runs the same-named hook of EVERY level exactly once, in outer-to-inner order,
+    and then reaches the real client exactly once — no level is skipped or doubled -/
+theorem stacked_every_level_once (d : Nat) (w : String) (hw : w ∈ userWrappers) (m : String)
+    (hm : m ∈ entryPoints) (hi : m ∈ ifaceOf w) : stackCall d w m = expectLevels d w m := by
+  induction d with
+  | zero => rfl
+  | succ d ih => simp only [stackCall, expectLevels, level_hooked w hw m hm hi, ih]
+
+/-- the same on every client reachable through Dedicated / Dedicate / Nodes -/
+theorem stacked_reachable_every_level_once (d : Nat) (w : String) (h : Reach w) (m : String)
+    (hm : m ∈ entryPoints) (hi : m ∈ ifaceOf w) : stackCall d w m = expectLevels d w m :=
+  stacked_every_level_once d w (reach_user w h) m hm hi
+
 /-! ### Non-vacuity -/
+
+example : stackCall 3 "hookclient" "DoCache" =
+    [Ev.hookAt 3 "DoCache" "other", Ev.hookAt 2 "DoCache" "other", Ev.hookAt 1 "DoCache" "inner", Ev.inner "DoCache"] := by decide
+
 
 example : Reach "dedicated" :=
   Reach.step (w := "hookclient") (m := "Dedicate") (evs := [Ev.inner "Dedicate"])
